@@ -19,6 +19,9 @@ type GlobCache struct {
 
 	// n is the number of elements in l.
 	n int
+
+	// mu guards l, h and n.
+	mu sync.Mutex
 }
 
 func NewGlobCache(size int) *GlobCache {
@@ -41,6 +44,14 @@ func (c *GlobCache) Get(pattern string) (glob.Glob, error) {
 	glbCompiled, err := glob.Compile(pattern)
 	if err != nil {
 		return nil, err
+	}
+
+	c.mu.Lock()
+	defer c.mu.Unlock()
+
+	// another request may have added the pattern while we were waiting
+	if glb, ok := c.m.Load(pattern); ok {
+		return glb.(glob.Glob), nil
 	}
 
 	// if the LRU buffer is not full just append
